@@ -44,7 +44,7 @@ def children_of(ps, p):
     return out
 
 
-def wf(ps):
+def wf(ps, ages=True):
     by = {x["p_id"]: x for x in ps}
     if len(by) != len(ps):
         return False
@@ -60,7 +60,7 @@ def wf(ps):
         if h >= 0 and (h != e or by[h]["p_id_ehepartner"] != x["p_id"] or by[h]["gemeinsam_veranlagt"] != x["gemeinsam_veranlagt"]):
             return False
         for k in ("p_id_elternteil_1", "p_id_elternteil_2"):
-            if x[k] >= 0 and not x["alter"] + 14 < by[x[k]]["alter"]:
+            if ages and x[k] >= 0 and not x["alter"] + 14 < by[x[k]]["alter"]:
                 return False
         if x["p_id_elternteil_1"] >= 0 and x["p_id_elternteil_1"] == x["p_id_elternteil_2"]:
             return False
@@ -128,21 +128,35 @@ def part(ids, pids):
     return frozenset(frozenset(s) for s in groups.values())
 
 
-def run_builders(ps):
+def call_builder(fn, cols, date="2024-01-01"):
+    """call a builder of groupings.py by parameter NAME; parameter groups (arguments named *_params) are taken from the
+    environment of `date` — the unit definitions do not depend on the date, so any date must give the same ids"""
+    import inspect
+
+    kw = {}
+    for name in inspect.signature(fn).parameters:
+        if name.endswith("_params"):
+            kw[name] = impl.env(impl.ordinal(date))[0][name[:-7]]
+        else:
+            kw[name] = cols[name]
+    return fn(**kw)
+
+
+def run_builders(ps, date="2024-01-01"):
     import numpy as np
 
     from _gettsim import groupings as G
 
     a = {k: np.array([x[k] for x in ps], dtype=("bool" if k in ("eigenbedarf_gedeckt", "gemeinsam_veranlagt") else "int64")) for k in FIELDS}
     out = {}
-    out["eg_id"] = G.eg_id_numpy(a["p_id"], a["p_id_einstandspartner"])
-    out["ehe_id"] = G.ehe_id_numpy(a["p_id"], a["p_id_ehepartner"])
+    out["eg_id"] = call_builder(G.eg_id_numpy, a, date)
+    out["ehe_id"] = call_builder(G.ehe_id_numpy, a, date)
     try:
-        out["sn_id"] = G.sn_id_numpy(a["p_id"], a["p_id_ehepartner"], a["gemeinsam_veranlagt"])
+        out["sn_id"] = call_builder(G.sn_id_numpy, a, date)
     except ValueError:
         out["sn_id"] = None
-    out["fg_id"] = G.fg_id_numpy(a["p_id"], a["hh_id"], a["alter"], a["p_id_einstandspartner"], a["p_id_elternteil_1"], a["p_id_elternteil_2"])
-    out["bg_id"] = G.bg_id_numpy(out["fg_id"], a["alter"], a["eigenbedarf_gedeckt"])
+    out["fg_id"] = call_builder(G.fg_id_numpy, a, date)
+    out["bg_id"] = call_builder(G.bg_id_numpy, dict(a, fg_id=out["fg_id"]), date)
     return {k: (None if v is None else [int(z) for z in v]) for k, v in out.items()}
 
 
@@ -343,8 +357,58 @@ def t5_engine(ctx, res):
                         bad.append(dict(kind=f"{fine} does not nest in {coarse}", date=date, fine_id=a, coarse_ids=[m[a], b],
                                         rows=df[["p_id", "hh_id", "alter", "p_id_einstandspartner", "p_id_elternteil_1", "p_id_elternteil_2"]].to_dict("records")))
                         break
-    res.evaluations += n
+    # the unit definitions through the real engine at recent AND old dates, with childless children aged 24, 25, 26 living with
+    # their parents and self-sufficient young adults: partitions must equal the reference (the definitions do not depend on the date)
+    nref = 0
+    for date in (["2024-01-01", "2005-06-01"] if ctx.tier == "quick" else ["2024-01-01", "2019-01-01", "2010-01-01", "2006-12-31", "2005-06-01", "2002-01-01"]):
+        for _ in range(3 if ctx.tier == "quick" else 10):
+            pop = popgen.population(rnd, int(date[:4]), 8, templates=["adult_child", "couple_kids", "single_parent", "patchwork", "three_gen", "married"], id_style="sparse")
+            for q in pop:
+                by = {z["p_id"]: z for z in pop}
+                par_ages = [by[q[k]]["alter"] for k in ("p_id_elternteil_1", "p_id_elternteil_2") if q[k] >= 0]
+                if par_ages and min(par_ages) >= 41 and q["alter"] >= 16 and not children_of(pop, q["p_id"]) and q["p_id_einstandspartner"] < 0 and rnd.random() < 0.8:
+                    q["alter"] = rnd.choice([24, 25, 26])
+                    q["geburtsjahr"] = int(date[:4]) - q["alter"]
+                    q["kind"] = False
+                    q["eigenbedarf_gedeckt"] = rnd.random() < 0.5
+            # a directed family: partners 55 / 53, their co-resident childless children aged 24, 25, 26 (one covering own needs), and a single
+            # parent with a 26-year-old
+            base_id = max(q["p_id"] for q in pop) + 10
+            hhx = max(q["hh_id"] for q in pop) + 10
+            fam = popgen.population(rnd, int(date[:4]), 1, templates=["couple_kids"], id_style="dense")
+            proto_adult = next(q for q in fam if not q["kind"])
+            def mk(i, hh, age, e=-1, p1=-1, p2=-1, eb=False):
+                q = dict(proto_adult)
+                q.update(p_id=base_id + i, hh_id=hh, alter=age, geburtsjahr=int(date[:4]) - age, kind=False, p_id_einstandspartner=e, p_id_ehepartner=-1,
+                         p_id_elternteil_1=p1, p_id_elternteil_2=p2, p_id_kindergeld_empf=-1, p_id_erziehgeld_empf=-1, p_id_betreuungsk_träger=-1,
+                         eigenbedarf_gedeckt=eb, gemeinsam_veranlagt=False, alleinerz=False, steuerklasse=1, bruttolohn_m=float(rnd.choice([0, 800, 2500])))
+                return q
+            pop = pop + [mk(0, hhx, 55, e=base_id + 1), mk(1, hhx, 53, e=base_id), mk(2, hhx, 24, p1=base_id, p2=base_id + 1),
+                         mk(3, hhx, 25, p1=base_id, p2=base_id + 1), mk(4, hhx, 26, p1=base_id, p2=base_id + 1, eb=True),
+                         mk(5, hhx + 1, 60), mk(6, hhx + 1, 26, p1=base_id + 5), mk(7, hhx + 1, 24, p1=base_id + 5, eb=True)]
+            rnd.shuffle(pop)
+            ps = [{k: (bool(q[k]) if k in ("eigenbedarf_gedeckt", "gemeinsam_veranlagt") else int(q[k])) for k in FIELDS} for q in pop]
+            if not wf(ps, ages=False):        # (the age gap between parents and children plays no role in the unit definitions)
+                res.extra["t5_not_wf"] = res.extra.get("t5_not_wf", 0) + 1
+                continue
+            df = popgen.to_frame(pop)
+            try:
+                out, _ = engine.simulate(df, date, targets=["fg_id", "bg_id", "eg_id", "ehe_id", "sn_id"])
+            except Exception as ex:  # noqa: BLE001
+                res.extra.setdefault("t5_skipped", []).append(f"{date}: {type(ex).__name__}: {str(ex)[:100]}")
+                continue
+            nref += 1
+            ref = reference(ps)
+            pids = [x["p_id"] for x in ps]
+            for k in ("fg_id", "bg_id", "eg_id", "ehe_id", "sn_id"):
+                got = [int(v) for v in out[k]]
+                if part(got, pids) != part(ref[k], pids):
+                    bad.append(dict(kind=f"{k} partition differs from the unit definition (engine, {date})", date=date, fine_id=k, coarse_ids=[],
+                                    rows=[{f: x[f] for f in FIELDS} for x in ps], ids=got, expected=[sorted(c) for c in part(ref[k], pids)]))
+                    break
+    res.evaluations += n + nref
     res.extra["t5_engine_populations"] = n
+    res.extra["t5_engine_reference_populations"] = nref
     seen = set()
     for b in bad:
         if b["kind"] in seen:
